@@ -24,6 +24,7 @@ RULE = (
     "within 2 us of the horizon, or now within 1 ms of a minute boundary; distinct = canonical JSON. Part 'loop_runs' observes the same rule through the real run_scheduler_loop on the virtual-time loop: "
     "1-2 scripted sources that take 0-3.3 s to answer a listing, one-shots with T around the start / completion of a listing; every send must be at an instant s with "
     "T <= s, and s < T + 1 s unless s is the instant a listing completed (T had already passed when the schedule was first evaluated). Non-trivial there: a T that falls between the start and the completion of a listing."
+    " loop_runs optionally adds a batch of 40-400 one-shots falling due within one minute: each is sent at its own T."
 )
 ASSUMPTIONS = ["the check process runs with TZ=Asia/Kathmandu so that any dependence on the local zone shows", "the controlled clock replaces taskiq.cli.scheduler.run.datetime"]
 
@@ -168,6 +169,11 @@ def loop_runs() -> Any:
             for j, (k, delta, naive, add_at) in enumerate(shots):
                 poll_start = base if k == 0 else m0 + k * MIN
                 ents.append({"id": f"o{si}_{j}", "t_off_us": poll_start + delta - base, "naive": naive, "add_at": min(add_at, k), "remove_at": None})
+            if si == 0 and d["bulk"]:
+                # a big batch of one-shots that become due within the same minute (a campaign scheduled in one go): each is still sent at its own T
+                n, gap = d["bulk"]
+                for j in range(n):
+                    ents.append({"id": f"b{j}", "t_off_us": m0 + MIN + 5 * SEC + j * gap - base, "naive": False, "add_at": 0, "remove_at": None})
             sources.append({"kind": "scripted", "entries": ents, "fail_polls": [], "list_latency": lat})
         return {"loop": True, "base_us": base, "horizon_min": 3, "sources": sources, "latencies": [0.0], "kick_fail": []}
 
@@ -178,6 +184,7 @@ def loop_runs() -> Any:
         "base": st.integers(clock.to_us(dtm.datetime(2024, 1, 1, tzinfo=clock.UTC)), clock.to_us(dtm.datetime(2026, 1, 1, tzinfo=clock.UTC))),
         "bsec": st.sampled_from([0, 12, 30, 57, 59]), "bus": st.sampled_from([0, 1, 500_000, 999_999]),
         "sources": st.lists(st.tuples(st.sampled_from([0.0, 0.0, 0.4, 1.0, 2.5, 3.3]), st.lists(shot, min_size=1, max_size=3)), min_size=1, max_size=2),
+        "bulk": st.sampled_from([None] * 9 + [(40, SEC), (150, 300_000), (260, 200_000), (400, 0)]),
     }).map(fin)
 
 
@@ -211,7 +218,8 @@ def run_loop_case(case: Dict[str, Any]) -> Outcome:
             out.add("C14.c", desc + ": a second or more late although it was not sent straight from an evaluation")
     out.nontrivial = in_flight
     out.classes = ["loop"] + (["due_while_listing_in_flight"] if in_flight else []) + \
-                  (["slow_source"] if any(s["list_latency"] for s in case["sources"]) else [])
+                  (["slow_source"] if any(s["list_latency"] for s in case["sources"]) else []) + \
+                  (["bulk_batch_over_100"] if sum(len(s["entries"]) for s in case["sources"]) > 100 else [])
     out.trace = {"kicks": [[k["tag"], k["t"] - base] for k in res["kicks"]], "evals": [e - base for e in evals]}
     return out
 
